@@ -694,6 +694,14 @@ class Interp:
                     if ej[1] or env[k] != a.env.get(k):
                         changed = True
                     continue
+            if va != vb:
+                # `if x != y { x = y }`: one side stored y, the other side knows x == y: both leave x == y
+                ev = self._eq_join(va, vb, a, b)
+                if ev is not None:
+                    env[k] = ev
+                    if env[k] != a.env.get(k):
+                        changed = True
+                    continue
             oj = None if va == vb else self._opt_join(gid, k, va, vb, a, b)
             if oj is None and va != vb:
                 bj = self._bool_join(gid, k, va, vb, a, b)
@@ -711,13 +719,31 @@ class Interp:
                 env[k] = nv
             if env.get(k) != a.env.get(k):
                 changed = True
-        base = {k: v for k, v in a.base.items() if b.base.get(k) == v}
+        base = {}
+        lost = []
+        for k in set(a.base) | set(b.base):
+            va, vb = a.base.get(k), b.base.get(k)
+            if va == vb:
+                base[k] = va
+                continue
+            kept = None
+            if va is None or vb is None:
+                # `if x != y { x = y }` on an aggregate field: the side that did not store knows the two are equal
+                q, other = (va, b) if vb is None else (vb, a)
+                kept = q if self._alias_eq_fact(other, k, q) else None
+            if kept is not None:
+                base[k] = kept
+            elif k[0][0] != "L":
+                lost.append(k)
         if base != a.base:
             changed = True
         ver = {}
         for k in set(a.ver) | set(b.ver):
             va, vb = a.ver.get(k), b.ver.get(k)
             ver[k] = va if va == vb else ("j", gid)
+        for k in lost:
+            # a field of a tracked object that was overwritten on one path only: later reads must not see the original value
+            ver[k] = ("j", gid)
         if ver != a.ver:
             changed = True
         facts = a.facts & b.facts
@@ -727,6 +753,32 @@ class Interp:
         if wrapped != a.wrapped:
             changed = True
         return State(env, base, ver, facts, wrapped), changed
+
+    def _alias_eq_fact(self, st, k, q):
+        """state st (in which path k was NOT overwritten) knows that k and q hold equal values: a type-id equality test on the two fields themselves, or - for
+        the destructor field - on the sibling type_id fields (one element type has one destructor)"""
+        def fact(p1, p2):
+            x, y = ("init", p1, self.ver_of(st, p1)), ("init", p2, self.ver_of(st, p2))
+            return ("teq", x, y) in st.facts or ("teq", y, x) in st.facts
+        if fact(k, q):
+            return True
+        if k[1] and q[1] and k[1][-1] == "drop_fn" and q[1][-1] == "drop_fn":
+            return fact((k[0], k[1][:-1] + ("type_id",)), (q[0], q[1][:-1] + ("type_id",)))
+        return False
+
+    def _eq_join(self, va, vb, a, b):
+        def norm(v, st):
+            if isinstance(v, tuple) and len(v) == 2 and v[0] == "alias" and isinstance(v[1], tuple) and len(v[1]) == 2:
+                return ("init", v[1], self.ver_of(st, v[1]))
+            return v
+        for (x, sx, y, sy) in ((va, a, vb, b), (vb, b, va, a)):
+            # x was stored (a copy of some other object's field), y is what the other path knows to be equal to it
+            if not (isinstance(x, tuple) and x and x[0] == "alias"):
+                continue
+            nx, ny = norm(x, sy), norm(y, sy)
+            if ("teq", ny, nx) in sy.facts or ("teq", nx, ny) in sy.facts:
+                return x
+        return None
 
     def _opt_join(self, gid, k, va, vb, a, b):
         """join of Some(x) with None (an Option built in two arms of a callee and returned): keep the payload and remember which facts hold on which
@@ -1019,7 +1071,19 @@ class Interp:
         root, proj = dpath
         if root[0] == "L":
             return
-        self.eff(node, idx, "STORE", path=dpath, value=v, line=line, ty=ty_str(dty) if dty else "?")
+        snap = self.snapshot(st, v.path) if isinstance(v, Tree) else None
+        self.eff(node, idx, "STORE", path=dpath, value=v, line=line, ty=ty_str(dty) if dty else "?", snap=snap)
+
+    def snapshot(self, st, rpath):
+        """the aggregate currently stored under rpath, as ("tree", ((field path, value), ...)) (a single leaf: ("tree", (((), value),)))"""
+        leaf = st.env.get(rpath)
+        if leaf is not None:
+            return ("tree", (((), leaf),))
+        sub = {k[1][len(rpath[1]):]: v for k, v in st.env.items() if sub_of(rpath, k)}
+        for k, b in st.base.items():
+            if sub_of(rpath, k) and k[1][len(rpath[1]):] not in sub:
+                sub[k[1][len(rpath[1]):]] = ("alias", b)
+        return ("tree", tuple(sorted(sub.items(), key=lambda kv: repr(kv[0]))))
 
     # ------------------------------------------------------------------ terminators
     def terminator(self, gid, node, inst, st):
@@ -1190,6 +1254,8 @@ class Interp:
         if node.callee_inst is not None:
             ci = node.callee_inst
             cfn = ci.fn
+            if node.deref_self and args and isinstance(args[0], tuple) and args[0][:1] == ("ref",):
+                args[0] = self.load(st, args[0][1], None)
             self.eff(node, nidx, "ENTER", callee=ci.path(), args=args, line=line, facts=st.facts, cinst=ci)
             ust = st.copy() if unwind else None
             for i, a in enumerate(args):
@@ -1485,6 +1551,24 @@ def implies_ge0(facts, q, depth=3):
                 ge.append(f[1] - Poly.const(1))
             elif (-f[1]).nonneg_coeffs():
                 ge.append(-f[1] - Poly.const(1))
+    # p != 0 together with p >= 0 (a stated fact) gives p >= 1
+    for f in facts:
+        if f[0] == "ne0":
+            for g_ in list(ge):
+                if g_ == f[1]:
+                    ge.append(f[1] - Poly.const(1))
+                elif g_ == -f[1]:
+                    ge.append(-f[1] - Poly.const(1))
+    # min / max terms left symbolic: min(a,b) <= a, b ; max(a,b) >= a, b
+    mm = set()
+    for p_ in [q] + ge:
+        for a_ in p_.atoms():
+            if isinstance(a_, tuple) and len(a_) == 3 and a_[0] in ("min", "max") and isinstance(a_[1], Poly) and isinstance(a_[2], Poly):
+                mm.add(a_)
+    for a_ in mm:
+        t_ = Poly.atom(a_)
+        for x_ in (a_[1], a_[2]):
+            ge.append(x_ - t_ if a_[0] == "min" else t_ - x_)
     return _imp(ge, q, depth)
 
 
